@@ -502,7 +502,7 @@ def repeat_case(seed, idx, tier):
     import gc
     if sA.get("callback") and rng.chance(0.6):
         other = {"partial": "partialkw", "partialkw": "partial", "obj": "objkw", "objkw": "obj", "pos": "kw",
-                 "kw": "pos", "lambda": "kw", "posdefault": "kw"}[sA["callback"]["style"]]
+                 "kw": "pos", "lambda": "kw", "posdefault": "kw", "objfalsy": "objkw"}[sA["callback"]["style"]]
         sB["callback"] = {"style": other, "mutate": False, "stop_at": None}
     base_digest = base.digest()
     del base
@@ -521,9 +521,10 @@ def repeat_case(seed, idx, tier):
     rb = once(sB, [])
     r2 = once(sA, plan)
     r3 = once(sA, plan, use_probes=False)
+    r5 = once(sA, plan + [scenario.poison_knob(rng)])
     rf_ = once(sA2, plan)
     r4 = once(sA, [])
-    if any(r[0] for r in (r1, r2, r3, rb, rf_, r4)):
+    if any(r[0] for r in (r1, r2, r3, r5, rb, rf_, r4)):
         return cr
     st["c11.a_repeats"] += 1
     pay = {"engine": "repeat", "stmt": sA, "faults": plan, "between": sB, "forced": sA2}
@@ -531,6 +532,10 @@ def repeat_case(seed, idx, tier):
         cr.add_viols([Viol("C11", "a", "repeating a call after another call gives a different run", key="repeat_differs")], pay)
     if r1[1] != r3[1]:
         cr.add_viols([Viol("C11", "a", "the run differs with and without the read-only probes", key="probe_perturbs")], pay)
+    if r1[1] != r5[1]:
+        cr.add_viols([Viol("C11", "a", "the run depends on the contents of uninitialised memory (np.empty pre-filled with "
+                           "garbage changes it)", key="uninitialised_memory")],
+                     {"engine": "poison", "stmt": sA, "faults": plan, "poison": r5[4][-1]})
     if base_digest != r4[1]:
         cr.add_viols([Viol("C11", "a", "the first call of the process and the same call made after four other calls "
                            "differ", key="history_dependent")], pay)
@@ -616,6 +621,12 @@ def replay(p):
     st = Counter()
     if eng == "args":
         return W.c11b(run_client(p["stmt"], p["faults"]), st)
+    if eng == "poison":
+        a = run_client(p["stmt"], p["faults"]).digest()
+        b = run_client(p["stmt"], p["faults"] + [p["poison"]]).digest()
+        if a != b:
+            return [Viol("C11", "a", "the run depends on the contents of uninitialised memory", key="uninitialised_memory")]
+        return []
     if eng == "repeat":
         import gc
 
